@@ -199,6 +199,8 @@ fn judge_stream<F: Fl>(pts: &[usize], npat: usize, confs: &[(Kind, f64)], s: &mu
 }
 
 enum Job {
+    /// a dyadic sequence multiplied by 2^e (exact): small / large magnitudes
+    Scaled { len: usize, idx: u64, e: i32, f32_: bool },
     Seq { dyadic: bool, len: usize, idx: u64, f32_: bool },
     Stream { f32_: bool, pts: Vec<usize> },
 }
@@ -222,6 +224,15 @@ fn run(tier: Tier) -> Sink {
                 jobs.push(Job::Seq { dyadic: false, len, idx, f32_ });
             }
         }
+        // magnitudes: every dyadic sequence of length 2..3 scaled by powers of two
+        let exps: &[i32] = if f32_ { &[-40, -20, 20, 40] } else { &[-300, -60, -30, 40, 300] };
+        for &e in exps {
+            for len in 2..=3 {
+                for idx in 0..(A_DYADIC.len() as u64).pow(len as u32) {
+                    jobs.push(Job::Scaled { len, idx, e, f32_ });
+                }
+            }
+        }
         let pts = query_points(tier);
         for chunk in pts.chunks(tier.pick(400, 1500)) {
             jobs.push(Job::Stream { f32_, pts: chunk.to_vec() });
@@ -230,6 +241,22 @@ fn run(tier: Tier) -> Sink {
     let npat = tier.pick(3, 5);
     // thorough D1 at full length uses the reduced style set beyond length 5 to bound cost
     par_judge(&jobs, |j, s| match j {
+        Job::Scaled { len, idx, e, f32_ } => {
+            let k = 2f64.powi(*e);
+            let xs: Vec<f64> = nth_sequence(A_DYADIC.len(), *len, *idx).into_iter().map(|i| A_DYADIC[i] * k).collect();
+            // squares must stay finite and normal in the float type
+            let ok = xs.iter().all(|x| {
+                let a = x.abs();
+                a == 0.0 || if *f32_ { a * a < 1e37 && a * a > 1e-30 } else { a * a < 1e300 && a * a > 1e-290 }
+            });
+            if !ok {
+                s.skipped += 1;
+            } else if *f32_ {
+                judge_sample::<f32>(&xs, &confs, &STYLES_QUICK, s)
+            } else {
+                judge_sample::<f64>(&xs, &confs, &STYLES_QUICK, s)
+            }
+        }
         Job::Seq { dyadic, len, idx, f32_ } => {
             let alpha: &[f64] = if *dyadic { &A_DYADIC } else { &A_NONDYADIC };
             let xs: Vec<f64> = nth_sequence(alpha.len(), *len, *idx).into_iter().map(|i| alpha[i]).collect();
@@ -286,7 +313,7 @@ fn main() {
     s.sample(json!({"check":"D1","type":"f32","xs":[0.1,0.1,0.1],"kind":"Two","level":0.95,"oracle":"constant sample: [x, x]"}));
     s.sample(json!({"check":"D2","type":"f64","pattern":[1.0,-1.0],"n":100000,"kind":"Two","level":0.99,"oracle":"dof 99999: t CDF (normal accepted within 1% of the switch)"}));
     rep.rule = format!(
-        "D1: every sequence of length 2..{} over {:?} and of length 2..{} over {:?} x {} confidences x f64,f32 x call styles {:?}; D2: {} streaming patterns fed one value at a time, queried at {} sample sizes ({}) x confidences x f64,f32, plus the cross-pattern invariance of half-width/se; distinct by (type, kind, constant?, result bits) and (type, pattern, kind, dof decade)",
+        "D1: every sequence of length 2..{} over {:?} (length 2..3 also scaled by 2^e, e in {{-300,-60,-30,40,300}} for f64 and {{-40,-20,20,40}} for f32) and of length 2..{} over {:?} x {} confidences x f64,f32 x call styles {:?}; D2: {} streaming patterns fed one value at a time, queried at {} sample sizes ({}) x confidences x f64,f32, plus the cross-pattern invariance of half-width/se; distinct by (type, kind, constant?, result bits) and (type, pattern, kind, dof decade)",
         tier.pick(4, 6), A_DYADIC, tier.pick(3, 4), A_NONDYADIC, vcheck::confs(tier).len(), match tier { Tier::Quick => &STYLES_QUICK[..], Tier::Thorough => &STYLES_ALL[..] },
         tier.pick(3, 5), query_points(tier).len(), tier.pick("every n in 2..3000 and 99000..101000, powers of two, 200001", "every n in 2..101000, 131072, 200001")
     );
